@@ -277,7 +277,7 @@ theorem later_entry (hashOf : List β → H) (stored : String → Bool) (es : Li
     (D0 : String → Prop) (hD0 : ∀ kv ∈ files, ∀ q ∈ kv.2.paths, ¬ D0 q)
     (pre : List (Entry β)) (e : Entry β) (post : List (Entry β)) (hs : lb.es = pre ++ e :: post)
     (st : RSt β) (seen : List String) (inv : SInv stored es EXT (DoneJ D0 files pre) st) (hseen : SeenJ files pre seen) :
-    ∃ st' seen', processEntry hashOf files false st seen (stripE lb.stored e) = some (st', seen') ∧
+    ∃ st' seen', processEntry hashOf files false st seen (stripE lb.stored lb.pad e) = some (st', seen') ∧
       SInv stored es EXT (DoneJ D0 files (pre ++ [e])) st' ∧ SeenJ files (pre ++ [e]) seen' := by
   have wfj := ls.wfj
   have he : e ∈ lb.es := by rw [hs]; simp
@@ -328,9 +328,10 @@ theorem later_entry (hashOf : List β → H) (stored : String → Bool) (es : Li
       have hi := mem_of_mapGet files _ _ hget
       obtain ⟨p', m', d', hee, hst, hh, hsz, hq⟩ := hkeyent info hi
       cases hee
-      simp only [stripE, hst, if_true, processEntry, hpath, hk, hget]
+      obtain ⟨tail, htail⟩ := padded_eq lb.pad p d
+      simp only [stripE, hst, if_true, htail, processEntry, hpath, hk, hget]
       unfold restoreFiles
-      have htake : d.take info.size = d := by rw [hsz]; simp
+      have htake : (d ++ tail).take info.size = d := by rw [hsz]; simp
       rw [htake]
       have hinner : info.paths.Nodup :=
         nodup_flatMap_inner (fun kv : String × RFile H => kv.2.paths) files ls.innerNodup _ hi
@@ -347,7 +348,7 @@ theorem later_entry (hashOf : List β → H) (stored : String → Bool) (es : Li
             have : a' = .file p m d := keyE_inj lb.es wfj a' _ (hpre a' ha') he hk'
             exact hnotin (this ▸ ha')) inv
       rw [h1]
-      have hlen : ¬ (d.length < info.size) := by rw [hsz]; exact Nat.lt_irrefl _
+      have hlen : ¬ ((d ++ tail).length < info.size) := by rw [hsz, List.length_append]; omega
       have hhh : ¬ (hashOf d ≠ info.hash) := by rw [hh]; simp
       simp only [hlen, hhh, if_false, Bool.false_and, Bool.false_eq_true, Option.map_some]
       refine ⟨_, _, rfl, inv1.congr ?_, ?_⟩
@@ -383,7 +384,7 @@ theorem later_entries (hashOf : List β → H) (stored : String → Bool) (es : 
     (D0 : String → Prop) (hD0 : ∀ kv ∈ files, ∀ q ∈ kv.2.paths, ¬ D0 q) :
     ∀ (post pre : List (Entry β)) (st : RSt β) (seen : List String), lb.es = pre ++ post →
       SInv stored es EXT (DoneJ D0 files pre) st → SeenJ files pre seen →
-      ∃ st' seen', processEntries hashOf files false (post.map (stripE lb.stored)) st seen = some (st', seen') ∧
+      ∃ st' seen', processEntries hashOf files false (post.map (stripE lb.stored lb.pad)) st seen = some (st', seen') ∧
         SInv stored es EXT (DoneJ D0 files lb.es) st' ∧ SeenJ files lb.es seen' := by
   intro post
   induction post with
